@@ -124,6 +124,11 @@ class PoolProp:
                    "workers >= 1, chunk_size >= 1, results_queue_maxsize None or int >= 1",
                    "out of reach of the model: OS starvation, wall-clock timeouts, a killed manager process, fork-in-thread hazards"]
 
+    model_name = "pool"
+
+    def kind_of(self, cfg):
+        return "factory" if cfg.factory else "plain"
+
     # ---- configurations ------------------------------------------------------------------------------------------------
     def corpus(self):
         """(cfg, chooser factory, label)"""
@@ -186,7 +191,7 @@ class PoolProp:
 
     def compare(self, cfg, status, schedule, steps, env):
         """returns None or (step index, model line, impl line)"""
-        out = core.run_driver("pool", ["reset"] + self.model_lines(cfg, schedule))[1:]
+        out = core.run_driver(self.model_name, ["reset"] + self.model_lines(cfg, schedule))[1:]
         if out[0] != "ok":
             raise HarnessError("pool model rejected the configuration: " + cfg.model_line())
         for i, (st, ml) in enumerate(zip(steps, out[1:-1])):
@@ -340,7 +345,7 @@ class PoolProp:
             report.add_case({k: case[k] for k in ("cfg", "chooser", "label", "status")},
                             hash((cfg.model_line(), tuple(schedule))) if nontrivial else None)
             report.count("chooser:" + desc[0])
-            report.count("pool:" + ("factory" if cfg.factory else "plain"))
+            report.count("pool:" + self.kind_of(cfg))
             report.count("status:" + status.split(":")[0])
             report.count(f"workers:{cfg.n_workers}")
             report.traces_validated += 1
@@ -393,7 +398,7 @@ class PoolProp:
                 if corr_fail is not None:
                     case, (i, ml, il) = corr_fail
                     f = Finding("correspondence", case,
-                                f"correspondence {self.pid}/pool no longer checks at step {i}; no failing schedule found",
+                                f"correspondence {self.pid}/{self.model_name} no longer checks at step {i}; no failing schedule found",
                                 expected=ml, observed=il)
                 else:
                     f = Finding("proof", {"label": "proof obligations"},
@@ -428,10 +433,13 @@ class PoolProp:
     def shrink_schedule(self, case):
         return case
 
+    def cfg_from_json(self, d):
+        return Cfg(**d)
+
     def do_replay(self, path):
         r = json.load(open(path, encoding="utf-8"))
         c = r["case"]
-        cfg = Cfg(**c["cfg"])
+        cfg = self.cfg_from_json(c["cfg"])
         env, status, schedule, steps = self.run_sim(cfg, chooser_replay(c["schedule"]))
         print("status:", status)
         print("results:", env.results, "expected:", env.expected())
